@@ -92,7 +92,14 @@ def job_divergence(dim, nmodes, via_srf, tier):
             out.append(prove(base + "/divergence == 0 for zero amplitudes", C + nz, z3.substitute(div, *zero_all) == 0 if amps else div == 0, T, witness_vars=wv, replay=rb, instantiate=False))
             for a_ in amps:
                 one = [(t, z3.RealVal(1 if t.get_id() == a_.get_id() else 0)) for t in amps]
-                out.append(prove(base + f"/divergence == 0 for unit amplitude {a_} (all points, all wave vectors)", C + nz, z3.simplify(z3.substitute(div, *one)) == 0, T, witness_vars=wv, replay=rb, instantiate=False))
+                # polynomial normal form first (inverse atoms cancel against their non-zero side conditions): the residual goal is
+                # what the solver decides
+                term = z3.simplify(z3.substitute(div, *one))
+                try:
+                    goal, _n = passes.reduced_eq_goal(term, z3.RealVal(0))
+                except Exception:
+                    goal = term == 0
+                out.append(prove(base + f"/divergence == 0 for unit amplitude {a_} (all points, all wave vectors)", C + nz, goal, T, witness_vars=wv, replay=rb, instantiate=False))
         # mean: the amplitude-free part of the field is mean_u e1  (set all Z to 0)
         zs = [t for t in _syms(lift(u[0, 0])) + sum([_syms(lift(u[d, 0])) for d in range(1, dim)], []) if str(t).startswith("N[")]
         sub = [(t, z3.RealVal(0)) for t in {str(t): t for t in zs}.values()]
